@@ -8,7 +8,7 @@ from core import BaseProp, Verdict
 from proto import T
 from props.c02 import merge_words
 
-RULE = ('random tables x texts (half of them valid grammar-derived expressions with one or two token-level edits: delete, insert, duplicate, swap, replace) over operators, parentheses, known names, unknown words, words with invalid characters and blank '
+RULE = ('[one case in ten: two known names that overlap by a word and a text holding their union - must be rejected whichever name wins] random tables x texts (half of them valid grammar-derived expressions with one or two token-level edits: delete, insert, duplicate, swap, replace) over operators, parentheses, known names, unknown words, words with invalid characters and blank '
         'runs, under every combination of strict/simple/validate; Spec on the real code: (a) only ExpressionError / '
         'ExpressionParseError escape from parse, validate never raises and dedup / is_equivalent / contains / the key listings '
         'raise nothing else either; (b) a token sequence that the reference grammar does not derive (and that is not a derivable '
@@ -55,6 +55,23 @@ class Prop(BaseProp):
         text = ' '.join(toks) if rng.random() < 0.8 else gen.blank_run(rng).join(toks)
         return {'table': table, 'text': text, 'simple': rng.random() < 0.3, 'strict': rng.random() < 0.3, 'validate': rng.random() < 0.3}
 
+    def case_overlap(self, rng):
+        """two known names that overlap by a word, neither inside the other, and a text that holds their union (at its end, or
+        followed by something): whichever of the two is recognised, a word is left over beside it - two operands with no operator
+        between them"""
+        ws = rng.sample(['gnu', 'lesser', 'gpl', '2.0', 'v3', 'free', 'lib', 'x1'], rng.randint(3, 5))
+        j = rng.randint(1, len(ws) - 2)
+        i = rng.randint(j, len(ws) - 2)
+        a, b = ' '.join(ws[:i + 1]), ' '.join(ws[j:])
+        table = [['lic-a', [a], False], ['lic-b', [b], False], ['mit', [], False]]
+        if rng.random() < 0.5:
+            table.reverse()
+        text = rng.choice(['', 'mit or ', '(mit) and ', 'mit and (']) + gen.variant(rng, ' '.join(ws))
+        if text.count('(') > text.count(')'):
+            text += ')'
+        text += rng.choice(['', '', ' ', ' \t', ' or mit', ' and mit'])
+        return {'table': table, 'text': text, 'simple': False, 'strict': rng.random() < 0.3, 'validate': rng.random() < 0.3, 'must_reject': True}
+
     def eval_case(self, drv, case, full_api=True):
         table, text = case['table'], case['text']
         simple, strict, validate = case['simple'], case['strict'], case['validate']
@@ -70,6 +87,8 @@ class Prop(BaseProp):
         if blank:
             if ip != 'blank':
                 return Verdict('spec', case, 'blank input does not parse to None', impl=ip, tags=tags)
+        if case.get('must_reject') and P.is_ok(ip):
+            return Verdict('spec', case, 'two known names that overlap by a word: whichever is recognised, the left-over word stands beside it with no operator, yet an expression is returned', impl=ip, tags=tags)
         # (b) faulty token sequences are never accepted
         il = impl.ltok_c(lic, text, strict=strict, simple=simple)
         if P.is_ok(il) and P.is_ok(ip):
@@ -147,7 +166,7 @@ class Prop(BaseProp):
             for c in CORPUS:
                 self.record(self.eval_case(drv, c))
         for i in range(n):
-            self.record(self.eval_case(drv, self.case_mutated(rng) if i % 2 else self.case_random(rng)))
+            self.record(self.eval_case(drv, self.case_overlap(rng) if i % 10 == 9 else self.case_mutated(rng) if i % 2 else self.case_random(rng)))
         self.exhaustive(drv, index, nworkers, 5 if tier == 'thorough' else 4)
         return self.res
 
